@@ -10,7 +10,7 @@ prepends the stored envelope (taken from the socket) onto the reply exactly once
 (R07.5) ZmqMessage::prepend keeps frame order (reverse iteration + push_front), split_off delegates to
 VecDeque::split_off. Does NOT decide payload byte equality end to end."""
 from ..sym import show, walk_expr
-from ..common import short, trait_impls, coroutine_of, strip_casts, emptiness, is_empty_bytes
+from ..common import short, trait_impls, coroutine_of, strip_casts, emptiness, is_empty_bytes, store_hits
 from .. import pathq
 from ..oblig import implied_ge
 
@@ -187,7 +187,7 @@ def check_rep_recv(f, rep):
         if p.end != "return":
             continue
         rk = pathq.ret_kind(p)
-        stores = [ev for ev in p.events if ev.kind == "store" and (ev.place.endswith("." + ENV) or ev.place.endswith("." + REQ))]
+        stores = [ev for ev in p.events if (store_hits(ev, ENV) or store_hits(ev, REQ))]
         if rk == "Err":
             rep.check(not stores, "R07.3", "R07.3|err-exit-effect-free",
                       "an error exit of REP recv leaves the stored envelope and requester untouched (stores: %s)" % [s.place for s in stores], co.loc())
@@ -261,7 +261,7 @@ def check_rep_recv(f, rep):
             nonempty = any(e[0] in ("pure", "call") and short(e[1]) == "is_empty" and pathq.truth(c) is False and any(x == r for x in walk_expr(e)) for (e, c, _, _) in p.conds)
         rep.check(nonempty, "R07.3", "R07.3|body-non-empty", "REP recv returns Ok only when at least one frame follows the delimiter (split index < frame count)", co.loc())
         # envelope := the kept part, requester := queue key
-        env = [s for s in p.events if s.kind == "store" and s.place.endswith("." + ENV)]
+        env = [s for s in p.events if store_hits(s, ENV)]
         ok_env = len(env) == 1 and env[0].value[0] == "agg" and env[0].value[3] == "Some" and any(isinstance(x, tuple) and x and x[0] == "havoc" for x in walk_expr(env[0].value))
         rep.check(ok_env, "R07.3", "R07.3|envelope-stored", "the frames up to and including the delimiter are stored as the envelope (stores=%d)" % len(env), co.loc())
     rep.floor("R07.3", "Ok exits of REP recv", n_ok, 2)
